@@ -88,7 +88,7 @@ def main() -> int:
                 report["tests_tail"] = tail
         results = []
         for p in props:
-            envc = dict(os.environ, VERIF_REPO_SRC=os.path.join(work, "src"))
+            envc = dict(os.environ, VERIF_REPO_SRC=os.path.join(work, "src"), VERIF_REPLAY_DIR=os.path.join(tmp, "replays"))
             c = sh([PY, os.path.join(HERE, "check.py"), p, "--no-evidence"], env=envc, cwd=HERE, timeout=1800)
             rules = sorted(set(re.findall(r"^\s+(C\d+\.\w+ \[[^\]]*\])", c.stdout, re.M)))
             results.append({"property": p, "rc": c.returncode, "rules": rules, "tail": c.stdout[-400:] if c.returncode not in (0, 1) else ""})
